@@ -117,7 +117,7 @@ Proof. exact (fun G s OK bs0 BS g IG => top_tracefield G s OK bs0 BS g IG). Qed.
 Print Assumptions C08_tracefield_grid_with_zero_holes.
 
 (* ... and for a field kept as a constant v in the header template (heuristic detection), get_tracefield_values gives
-   v where a trace exists and zero at holes (D29 fix: np.full(v) zeroed outside the mask; needs the D20 guard) *)
+   v where a trace exists and zero at holes (D30 fix: np.full(v) zeroed outside the mask; needs the D20 guard) *)
 Theorem C08_tracefield_constant_field : forall G s bs0 g F v a b,
   survey_ok G s = true -> no_zero_inline s = true -> 1 <= bs0 -> infer_geometry s = Return g ->
   footer s g bs0 (fun t => fst (tr s t)) = Return F -> 0 <= a < gn_il G -> 0 <= b < gn_xl G ->
